@@ -123,7 +123,9 @@ Items == <<
   \* 59: fQ|: 7
   [field |-> <<102, 81>>, chain |-> <<>>, vals |-> <<SN(7, 1)>>, single |-> TRUE],
   \* 60: fP|cased: 'D'
-  [field |-> <<102, 80>>, chain |-> <<<<99, 97, 115, 101, 100>>>>, vals |-> <<SS(<<68>>)>>, single |-> TRUE]
+  [field |-> <<102, 80>>, chain |-> <<<<99, 97, 115, 101, 100>>>>, vals |-> <<SS(<<68>>)>>, single |-> TRUE],
+  \* 61: fxf|: 'v'
+  [field |-> <<102, 120, 102>>, chain |-> <<>>, vals |-> <<SS(<<118>>)>>, single |-> TRUE]
 >>
 KwLists == <<
   <<SS(<<102, 111, 111>>), SS(<<98, 97, 42, 114>>)>>,
